@@ -133,6 +133,32 @@ pub fn step_strategy(reg: Reg, class_c: bool, allow_join: bool) -> impl Strategy
     proptest::strategy::Union::new_weighted(v)
 }
 
+/// Dynamic plans: a join whose type-0 CFList defines five channels, a LinkADRReq that narrows the mask to
+/// a subset of them, a re-join whose CFList leaves some of the five entries at 0 (removing those channels
+/// while the mask survives), then traffic. `k` enumerates (enabled subset 1..=31) x (kept entries 0..=31).
+pub fn rejoin_cflist_history(region: RegionId, front: FrontKind, seed: u64, k: usize) -> History {
+    use crate::drive::net::{Cmd, Recipe};
+    use verif_core::oracle::refcodec::RefCfList;
+    let reg = Reg::from_name(region.name()).unwrap();
+    let (lo, hi) = reg.band();
+    let nd = reg.default_channels().len();
+    let step = ((hi - lo) / 8 / 100).max(1);
+    let fr: Vec<u32> = (1..=5u32).map(|i| lo / 100 + i * step).collect();
+    let (subset, kept) = (1 + (k % 31) as u16, (k / 31 % 32) as u8);
+    let cf = |keep: u8| RefCfList::Type0(std::array::from_fn(|i| if keep & (1 << i) != 0 { fr[i] } else { 0 }));
+    let ja = |keep: u8, nonce: u32| Recipe::JoinAccept { dl_settings: 0, rx_delay: 1, cflist: Some(cf(keep)), wrong_key: false, stale_nonce: false, flip_bit: None, dev_addr: 0x0102_0300 + nonce, net_id: 0x13, join_nonce: 10 + nonce };
+    let mask: u16 = (0..5).filter(|i| subset & (1 << i) != 0).fold(0u16, |m, i| m | (1 << (nd + i)));
+    let steps = vec![
+        Step::Join(RxPlan::rx1(ja(0x1F, 1))),
+        Step::Send { port: 1, len: 1, confirmed: false, rx: RxPlan::rx1(Recipe::auth_cmds(1, vec![Cmd::LinkAdrReq { dr: 15, txp: 15, mask, cntl: 0, nbtrans: 1 }])) },
+        Step::Send { port: 1, len: 1, confirmed: false, rx: RxPlan::default() },
+        Step::Join(RxPlan::rx1(ja(kept, 2))),
+        Step::Silence(3),
+        Step::Send { port: 2, len: 2, confirmed: true, rx: RxPlan::rx1(Recipe::auth_empty(1)) },
+    ];
+    History { cfg: DevCfg { region, join_bias: None, front, board: (14, 0) }, activation: Activation::Otaa, board: Board::default(), rng_script: vec![], rng_seed: seed ^ k as u64, steps }
+}
+
 /// SNR the radio reports for received frames: usually plausible, sometimes anything an i8 can hold
 pub fn snr_strategy() -> impl Strategy<Value = i8> {
     prop_oneof![4 => -20i8..=12, 1 => Just(31i8), 1 => Just(32i8), 1 => Just(-32i8), 1 => Just(-33i8), 1 => Just(127i8), 1 => Just(-128i8), 2 => any::<i8>()]
